@@ -93,6 +93,21 @@ func colData(rng *rand.Rand, col *model.Col) types.DataSlice {
 			return ss
 		}
 		sp := make([]*string, n)
+		if rng.Intn(3) == 0 {
+			// equal strings share one pointer (callers often intern their strings)
+			shared := map[string]*string{}
+			for i, s := range col.S {
+				if s != nil {
+					p, ok := shared[*s]
+					if !ok {
+						p = model.StrP(*s)
+						shared[*s] = p
+					}
+					sp[i] = p
+				}
+			}
+			return sp
+		}
 		for i, s := range col.S {
 			if s != nil {
 				sp[i] = model.StrP(*s)
@@ -339,6 +354,27 @@ func c08Project(c *fw.Case) {
 	n := sh.Len()
 	nonIdent := root.Shape != "identity" && root.Shape != "unknown"
 
+	type kept struct {
+		req  string
+		want *model.Frame
+		res  qframe.QFrame
+	}
+	var earlier []kept
+	defer func() {
+		// every result handed out earlier must still be what was requested after all later requests on the same frame
+		for _, k := range earlier {
+			c.Eval(1)
+			got, oerr := model.ObserveGuard(k.res)
+			if oerr != nil {
+				c.Fail("later-request-damaged-result:"+firstWord(k.req), "result of %s can no longer be observed after later requests on the same frame: %v", k.req, oerr)
+				return
+			}
+			if d := model.Diff(k.want, got); d != "" {
+				c.Fail("later-request-damaged-result:"+firstWord(k.req), "result of %s changed after later requests on the same frame: %s", k.req, d)
+				return
+			}
+		}
+	}()
 	check := func(req string, valid bool, want *model.Frame, f func() qframe.QFrame) {
 		reqs = append(reqs, req)
 		c.Eval(1)
@@ -369,6 +405,8 @@ func c08Project(c *fw.Case) {
 		}
 		if d := model.Diff(want, got); d != "" {
 			c.Fail("differs:"+kind, "%s on frame (index %s): %s", req, root.Shape, d)
+		} else if len(earlier) < 12 {
+			earlier = append(earlier, kept{req, want, res})
 		}
 	}
 
@@ -433,6 +471,14 @@ func c08Project(c *fw.Case) {
 			want.Cols = append(want.Cols, cp)
 		}
 		check(fmt.Sprintf("Copy(%q, %q)", dst, src), true, want, func() qframe.QFrame { return root.QF.Copy(dst, src) })
+		{
+			src2 := names[rng.Intn(len(names))]
+			want2 := &model.Frame{Cols: append([]*model.Col(nil), sh.Cols...)}
+			cp2 := sh.Col(src2).Clone()
+			cp2.Name = "second-new-column"
+			want2.Cols = append(want2.Cols, cp2)
+			check(fmt.Sprintf("Copy(%q, %q)", "second-new-column", src2), true, want2, func() qframe.QFrame { return root.QF.Copy("second-new-column", src2) })
+		}
 		check(fmt.Sprintf("Copy(%q, %q)", "newcol", "no-such-column"), false, nil, func() qframe.QFrame { return root.QF.Copy("newcol", "no-such-column") })
 		illegal := []string{"", "\"q\"", "'q'", "$d"}[rng.Intn(4)]
 		check(fmt.Sprintf("Copy(%q, %q)", illegal, src), false, nil, func() qframe.QFrame { return root.QF.Copy(illegal, src) })
